@@ -35,7 +35,7 @@ def gen_cases(ctx, n_hist, n_tree, n_consumer, tree_ops=(6, 7), big=False,
             c["policy"] = rng.choice(["random_ready", "one_job_first", "round_robin", "last_machine"])
         # abandoned episodes: reset after a few steps (biased to very early), then a full episode
         if rng.random() < 0.3:
-            c["abandon_after"] = [rng.choice([1, 1, 2, 3, rng.randint(1, 12)])
+            c["abandon_after"] = [rng.choice([0, 1, 1, 2, 3, rng.randint(1, 12)])
                                   for _ in range(rng.choice([1, 1, 2]))]
         if rng.random() < 0.12:
             # the dispatcher is copied (copy.deepcopy) in the middle of the history and the copy
@@ -134,6 +134,9 @@ def run_history(ctx, case, hooks: Hooks, instance=None):
             # abandon the episode: reset dispatcher and reference model, start over
             abandon.pop(0)
             run.d.reset()
+            if rng.random() < 0.2:
+                run.d.reset()       # resetting twice is resetting once
+                ctx.count("double_resets")
             run.r.reset()
             ctx.count("abandoned_episodes")
             hooks.reset(run)
